@@ -86,6 +86,14 @@ func makeURLKey(u *url.URL) string {
 
 	// RFC 3986 §6.2.2.2: Normalize percent-encoding in path.
 	path = normalizePercentEncoding(path)
+	// "%2E" is "." (an unreserved character): decoding may have produced dot
+	// segments that were not visible to the resolution above (§6.2.2.3).
+	if strings.Contains(path, "/.") {
+		if unescaped, err := url.PathUnescape(path); err == nil {
+			ref := &url.URL{Path: unescaped, RawPath: path}
+			path = (&url.URL{Path: "/"}).ResolveReference(ref).EscapedPath()
+		}
+	}
 	result := scheme + "://" + hostPort + path
 
 	// RFC 3986 §6.2.2.2: Normalize percent-encoding in query, if present.
